@@ -858,6 +858,7 @@ func runC02(c *Ctx) {
 	r := c.R
 	checkDeserializerBounds(r, p)
 	checkNoSizeDrivenAlloc(r, p)
+	checkInputSlicesBounded(r, p)
 	checkJSONAssertions(r, p)
 	checkReflectOnInputValues(r, p)
 	checkPrefixBoundedLoops(r, c, p)
@@ -1919,5 +1920,236 @@ func checkReflectOnInputValues(r *Reporter, p *Prog) {
 	}
 	if n < 2 {
 		r.Fail("reflect/input-value-guarded", pkgSerix, "-", fmt.Sprintf("expected at least the 2 tabled Len/Index uses on input values, found %d", n))
+	}
+}
+
+// inputSliceExempt: one named construct each, with the reason.
+var inputSliceExempt = map[string]string{
+	"srcBefore[:bytesRead] in serializer.Deserializer.ReadSequenceOfObjects": "bytesRead is the offset advance since srcBefore (= src[offset:]) was taken; every advance of the offset is bounds-guarded by deser/offset-advance-guarded",
+}
+
+// checkInputSlicesBounded: C02 outside the Deserializer's own source field. Every slice or index
+// expression on a byte slice that comes from the input (a []byte parameter, RemainingBytes(), or a
+// re-slice of one) must have each non-trivial bound either
+//   - guarded: the site is reachable only through an edge on which  bound <= len(base)  (index:
+//     bound < len(base)) is known, or
+//   - a consumed count: the int result of a call that was handed the same slice (decoder contract:
+//     a decoder reports at most the bytes it was given).
+//
+// A bound taken from the input itself (a length prefix) without such a guard panics with "slice
+// bounds out of range" on truncated input.
+func checkInputSlicesBounded(r *Reporter, p *Prog) {
+	const rule = "input/slice-bounded"
+	n := 0
+	for _, pkg := range []string{pkgSerix, pkgSer} {
+		pk := p.Pkg(pkg)
+		if pk == nil {
+			r.Unresolved(rule, pkg, "package not loaded")
+			continue
+		}
+		info := pk.TypesInfo
+		isBytes := func(e ast.Expr) bool {
+			t := info.TypeOf(e)
+			if t == nil {
+				return false
+			}
+			s, ok := t.Underlying().(*types.Slice)
+			if !ok {
+				return false
+			}
+			b, ok := s.Elem().Underlying().(*types.Basic)
+			return ok && b.Kind() == types.Uint8
+		}
+		for _, fd := range p.AllFuncDecls(pkg) {
+			if fd.Body == nil || strings.HasSuffix(p.Fset.Position(fd.Pos()).Filename, "_test.go") {
+				continue
+			}
+			// the function body and every function literal in it (validators are returned closures)
+			type unit struct {
+				body   *ast.BlockStmt
+				params *ast.FieldList
+				name   string
+			}
+			units := []unit{{fd.Body, fd.Type.Params, funcKey(pkg, fd)}}
+			ast.Inspect(fd.Body, func(nd ast.Node) bool {
+				if l, ok := nd.(*ast.FuncLit); ok {
+					units = append(units, unit{l.Body, l.Type.Params, funcKey(pkg, fd) + "$lit"})
+				}
+				return true
+			})
+			for _, u := range units {
+				paramObjs := map[types.Object]bool{}
+				if u.params != nil {
+					for _, fl := range u.params.List {
+						for _, nm := range fl.Names {
+							if o := info.Defs[nm]; o != nil {
+								paramObjs[o] = true
+							}
+						}
+					}
+				}
+				var f *FuncCFG
+				// fromInput: the base is a []byte parameter, RemainingBytes(), or a re-slice of one
+				var fromInput func(e ast.Expr, pt Point, depth int) bool
+				fromInput = func(e ast.Expr, pt Point, depth int) bool {
+					if depth <= 0 {
+						return false
+					}
+					switch x := ast.Unparen(e).(type) {
+					case *ast.Ident:
+						o := objOfIdent(info, x)
+						if o == nil {
+							return false
+						}
+						defs, fromEntry := f.ReachingDefs(pt, o)
+						if paramObjs[o] && (fromEntry || len(defs) == 0) {
+							return true
+						}
+						for _, d := range defs {
+							if d.Rhs != nil && fromInput(d.Rhs, d.At, depth-1) {
+								return true
+							}
+						}
+						return false
+					case *ast.SliceExpr:
+						return fromInput(x.X, pt, depth-1)
+					case *ast.CallExpr:
+						return strings.HasSuffix(exprKey(x.Fun), ".RemainingBytes")
+					}
+					return false
+				}
+				f = newFuncCFGPlain(p, info, u.body, u.name)
+				for _, b := range f.G.Blocks {
+					if !b.Live {
+						continue
+					}
+					for i, nd := range b.Nodes {
+						pt := Point{b, i}
+						inspectNoLit(nd, func(m ast.Node) bool {
+							var base ast.Expr
+							type bound struct {
+								e      ast.Expr
+								strict bool // index: bound < len
+							}
+							var bounds []bound
+							switch x := m.(type) {
+							case *ast.SliceExpr:
+								base = x.X
+								if x.Low != nil {
+									bounds = append(bounds, bound{x.Low, false})
+								}
+								if x.High != nil {
+									bounds = append(bounds, bound{x.High, false})
+								}
+							case *ast.IndexExpr:
+								base = x.X
+								bounds = append(bounds, bound{x.Index, true})
+							default:
+								return true
+							}
+							if !isBytes(base) || strings.Contains(exprKey(base), ".src") || len(bounds) == 0 {
+								return true // not bytes, or the Deserializer source (deser/bounds-guarded)
+							}
+							if !fromInput(base, pt, 4) {
+								return true
+							}
+							n++
+							key := fmt.Sprintf("%s in %s", types.ExprString(m.(ast.Expr)), u.name)
+							if reason, ok := inputSliceExempt[key]; ok {
+								r.Pass(rule, key, p.posStr(m.Pos()), "tabled: "+reason)
+								return true
+							}
+							baseKey := rawKey(base)
+							lenKeys := map[string]bool{"len(" + baseKey + ")": true, "len(" + f.KeyAt(base, pt) + ")": true}
+							okAll := true
+							for _, bd := range bounds {
+								if c, isConst := constInt(info, bd.e); isConst && c == 0 && !bd.strict {
+									continue // [0:...]
+								}
+								// (a) consumed count of a call that was handed the same slice
+								if cl, _ := f.AtomCall(bd.e, pt); cl != nil {
+									handed := false
+									for _, a := range cl.Args {
+										if objOfIdent(info, a) != nil && objOfIdent(info, a) == objOfIdent(info, base) {
+											handed = true
+										}
+									}
+									if handed {
+										if bt, ok := info.TypeOf(bd.e).Underlying().(*types.Basic); ok && bt.Info()&types.IsInteger != 0 {
+											continue
+										}
+									}
+								}
+								// (b) guarded by a length relation
+								c, isConst := constInt(info, bd.e)
+								bk, bkAt := rawKey(bd.e), f.KeyAt(bd.e, pt)
+								need := c
+								if bd.strict {
+									need = c + 1
+								}
+								var guards []Edge
+								f.forEachEdgeFact(func(e Edge, eb *cfg.Block, ft fact) {
+									be, ok := ast.Unparen(ft.Atom).(*ast.BinaryExpr)
+									if !ok {
+										return
+									}
+									ept := Point{eb, len(eb.Nodes) - 1}
+									rel, ok := relOfWith(ft.Atom, func(x ast.Expr) string { return f.KeyAt(x, ept) })
+									if !ok {
+										return
+									}
+									if !ft.Pol {
+										rel = negRel(rel)
+									}
+									// the operand that is not len(base)
+									var other ast.Expr
+									switch {
+									case lenKeys[f.KeyAt(be.Y, ept)] || lenKeys[rawKey(be.Y)]:
+										other = be.X
+									case lenKeys[f.KeyAt(be.X, ept)] || lenKeys[rawKey(be.X)]:
+										other = be.Y
+									default:
+										return
+									}
+									ok2 := false
+									switch {
+									case lenKeys[rel.R] && (rel.L == bk || rel.L == bkAt) && !isConst:
+										// bound < len / bound <= len
+										ok2 = rel.Op == "<" || (rel.Op == "<=" && !bd.strict)
+									case isConst && lenKeys[rel.R] && (rel.Op == "<" || rel.Op == "<="):
+										// K < len / K <= len with a constant expression K
+										if k, kc := constInt(info, other); kc {
+											if rel.Op == "<" {
+												k++
+											}
+											ok2 = k >= need
+										}
+									case isConst && rel.Op == "!=" && (lenKeys[rel.L] || lenKeys[rel.R]):
+										// len != 0: one byte
+										if k, kc := constInt(info, other); kc && k == 0 {
+											ok2 = need <= 1
+										}
+									}
+									if ok2 {
+										guards = append(guards, e)
+									}
+								})
+								if w, only := f.OnlyThroughEdges(pt, guards); !only {
+									okAll = false
+									r.Fail(rule, key, p.posStr(m.Pos()), fmt.Sprintf("the input slice %s is cut at %s, which is neither compared with len(%s) on every path to this point nor the count returned by a decoder that was handed the same slice: slice bounds out of range on truncated or hostile input", baseKey, types.ExprString(bd.e), baseKey), w...)
+								}
+							}
+							if okAll {
+								r.Pass(rule, key, p.posStr(m.Pos()), "every bound is length-guarded or a consumed count")
+							}
+							return true
+						})
+					}
+				}
+			}
+		}
+	}
+	if n < 4 {
+		r.Fail(rule, pkgSerix, "-", fmt.Sprintf("expected at least 4 input slice accesses (decodeMapKVPair, CheckTypeByte, AtMostOneOfEachTypeValidator, ReadSequenceOfObjects), found %d (vacuous)", n))
 	}
 }
